@@ -1,6 +1,7 @@
 // native replay for C06: evaluates the real number arithmetic on the counterexample operands and re-checks
 // the extended-number rules of the property statement
 #include "ghost.h"
+#include <cmath>
 #include <symengine/add.h>
 #include <symengine/mul.h>
 #include <symengine/pow.h>
@@ -36,6 +37,7 @@ int main(int argc, char **argv)
 {
     if (argc < 2) return 3;
     Args a = parse_args(argc, argv);
+    if (std::string(argv[1]).find("predicates") != std::string::npos) return predicates(a);
     if (std::string(argv[1]).find("float_op_finite") != std::string::npos) return float_ops(has(a, "kf"));
     RCP<const Basic> xb = ghost_obj(a, "a"), yb = ghost_obj(a, "b");
     if (!is_a_Number(*xb) || !is_a_Number(*yb)) return 3;
